@@ -85,6 +85,12 @@ pub fn sbc(f: &[&str], cat: bool) -> String {
     for c in cs {
         let chunk = &data[prev..c];
         prev = c;
+        if c % 2 == 1 {
+            // the state is a value: go on with a clone
+            let copy = st.clone();
+            assert!(copy == st, "Clone / PartialEq for StripBytes");
+            st = copy;
+        }
         let ps: Vec<(usize, Vec<u8>)> = st.strip_next(chunk).map(|p| (off(chunk, p), p.to_vec())).collect();
         chunks.push(ps);
     }
@@ -106,6 +112,11 @@ pub fn ssc(f: &[&str], cat: bool) -> String {
         let chunk = &data[prev..c];
         prev = c;
         let Ok(text) = std::str::from_utf8(chunk) else { return "INVALID-UTF8".to_owned() };
+        if c % 2 == 1 {
+            let copy = st.clone();
+            assert!(copy == st, "Clone / PartialEq for StripStr");
+            st = copy;
+        }
         let ps: Vec<(usize, Vec<u8>)> = st
             .strip_next(text)
             .map(|p| {
